@@ -39,7 +39,7 @@ def place_demo(d, name):
         return f'{build} && rm -rf {WT}/_demo_db && {WT}/target/debug/risinglight {WT}/_demo_db -f {d}/demo.slt', lambda: shutil.rmtree(os.path.join(WT, '_demo_db'), ignore_errors=True)
     demo = open(os.path.join(d, 'demo.rs')).read()
     m = re.search(r'(src/\S+?\.rs)', '\n'.join(demo.split('\n')[:6]))
-    if name.startswith('C06') and m and 'append' in '\n'.join(demo.split('\n')[:6]) and name not in ('C06-1', 'C06-2', 'C06-3', 'C06-4', 'C06-5', 'C06-6'):
+    if name.startswith('C06') and m and 'append' in '\n'.join(demo.split('\n')[:6]).lower() and name not in ('C06-1', 'C06-2', 'C06-3', 'C06-4', 'C06-5', 'C06-6'):
         target, filt = m.group(1), re.search(r'^mod (\w+)', demo, flags=re.M).group(1)
         open(os.path.join(WT, target), 'a').write('\n' + demo)
         return f'cargo test --offline -j 8 --lib {filt}', lambda: sh(f'git checkout -- {target}')
